@@ -19,7 +19,6 @@ Definition setN : cset := [cA; cC; cG; cT; cN].      (* regex.py _lettermap["N"]
 Definition aN : item := Atom setN.
 Definition lit (x : code) : item := Atom [x].
 Definition lits (w : list code) : pattern := map lit w.
-Definition rc_codes (w : list code) : list code := rev (map compl w).
 
 (* ---------- structure generators (modules.py:42-64, vectors.py:38-60, parts.py:48-99) *)
 
